@@ -8,7 +8,7 @@ import re
 from sim.world import World
 from harness import queue as hq
 
-STEP_CAP = 600000
+STEP_CAP = 150000      # (the largest fault-free scenario seen takes ~6 500 steps)
 WAITS = (0, 0, 1, 1, 2, 5, 30, 300)
 COMPONENTS = {
     'real': ['slimta.queue.Queue', 'slimta.queue.dict.DictStorage',
